@@ -104,6 +104,9 @@ var mutantCatalogue = map[string][]mutant{
 		{Name: "flush keeps pending fetches", File: "proc/mvp6-1/cpu.go", Old: "\tm.memoryManagementUnit.flushPendings()\n", New: ""},
 		{Name: "completion predicate forgets the write bus", File: "proc/mvp6-3/cpu.go", Old: "\t\tm.executeBus.IsEmpty() &&\n\t\tm.writeBus.IsEmpty()", New: "\t\tm.executeBus.IsEmpty()"},
 		{Name: "drain loop connects the bus only before the loop", File: "proc/mvp6-3/cpu.go", Old: "\t\t\t\tfor _, wu := range m.writeUnits {\n\t\t\t\t\tfor !wu.isEmpty() || !m.writeBus.IsEmpty() {\n\t\t\t\t\t\t// The queue of the bus may be smaller than what the execute units\n\t\t\t\t\t\t// have buffered\n\t\t\t\t\t\tm.writeBus.Connect(cycle + 1)\n", New: "\t\t\t\tm.writeBus.Connect(cycle + 1)\n\t\t\t\tfor _, wu := range m.writeUnits {\n\t\t\t\t\tfor !wu.isEmpty() || !m.writeBus.IsEmpty() {\n"},
+		{Name: "final drain discards the unit's result", File: "proc/mvp7-1/cpu.go", Old: "\t\t\tresp := eu.Cycle(euReq{cycle, app})\n\t\t\tif resp.err != nil {\n\t\t\t\treturn 0, resp.err\n\t\t\t}\n\t\t}\n\t\t// What the execute units completed", New: "\t\t\teu.Cycle(euReq{cycle, app})\n\t\t}\n\t\t// What the execute units completed"},
+		{Name: "pending fetch keyed by the missing byte", File: "proc/mvp6-1/mmu.go", Old: "[2]int32{addrs[0], addrs[0] + l3CacheLineSize + 1}", New: "[2]int32{addr, addr + l3CacheLineSize + 1}"},
+		{Name: "flush leaves the L3 line locked", File: "proc/mvp8-0/cc.go", Old: "\tif cc.l3Lock != nil {\n\t\tcc.l3Lock.Unlock()\n\t\tcc.l3Lock = nil\n\t}\n", New: ""},
 		{Name: "nop costs zero cycles", File: "risc/risc.go", Old: "\tcase Nop:\n\t\treturn 1", New: "\tcase Nop:\n\t\treturn 0"},
 	},
 	"C09": {
@@ -121,8 +124,10 @@ var mutantCatalogue = map[string][]mutant{
 		{Name: "execute unit writes a register", File: "proc/mvp6-1/eu.go", Old: "\tif execution.Return {\n\t\treturn euResp{isReturn: true}\n\t}\n", New: "\tif execution.Return {\n\t\treturn euResp{isReturn: true}\n\t}\n\tif execution.RegisterChange {\n\t\tr.ctx.WriteRegister(execution)\n\t}\n"},
 		{Name: "Bltu leaves the branch table", File: "risc/risc.go", Old: "case Beq, Beqz, Bne, Bnez, Blt, Bltu, Ble, Bge, Bgeu:", New: "case Beq, Beqz, Bne, Bnez, Blt, Ble, Bge, Bgeu:"},
 		{Name: "flush decision uses >", File: "proc/mvp6-1/bu.go", Old: "return u.expectation != pc", New: "return u.expectation > pc"},
-		{Name: "line fetch slices past the image", File: "proc/mvp7-0/mmu.go", Old: "\tfor i := 0; i < int(cacheLineSize); i++ {\n\t\tif int(alignedAddr)+i >= len(u.ctx.Memory) {\n\t\t\tmemory = append(memory, 0)\n\t\t} else {\n\t\t\tmemory = append(memory, u.ctx.Memory[int(alignedAddr)+i])\n\t\t}\n\t}\n", New: "\tmemory = append(memory, u.ctx.Memory[alignedAddr:]...)\n"},
+		{Name: "line fetch slices past the image", File: "proc/mvp7-0/mmu.go", Old: "\tfor i := 0; i < int(cacheLineSize); i++ {\n\t\tif int(alignedAddr)+i < 0 || int(alignedAddr)+i >= len(u.ctx.Memory) {\n\t\t\tmemory = append(memory, 0)\n\t\t} else {\n\t\t\tmemory = append(memory, u.ctx.Memory[int(alignedAddr)+i])\n\t\t}\n\t}\n", New: "\tmemory = append(memory, u.ctx.Memory[alignedAddr:]...)\n"},
 		{Name: "MVP-6.0 dispatches past a held-back instruction", File: "proc/mvp6-0/cu.go", Old: "\t\tu.blockedDataHazard++\n\t\treturn false, true\n", New: "\t\tu.blockedDataHazard++\n\t\treturn false, false\n"},
+		{Name: "line fetch loses its lower bound", File: "proc/mvp6-2/mmu.go", Old: "if int(addr)+i < 0 || int(addr)+i >= len(u.ctx.Memory) {\n\t\t\tmemory = append(memory, 0)", New: "if int(addr)+i >= len(u.ctx.Memory) {\n\t\t\tmemory = append(memory, 0)"},
+		{Name: "jump resolution skips a known jump", File: "proc/mvp7-0/bu.go", Old: "\tu.btb.add(pc, pcTo)\n\tu.fu.reset(pcTo, true)\n\tu.du.notifyBranchResolved()", New: "\tif _, exists := u.btb.get(pc); !exists {\n\t\tu.btb.add(pc, pcTo)\n\t\tu.fu.reset(pcTo, true)\n\t}\n\tu.du.notifyBranchResolved()"},
 		{Name: "decode does not stall after a jump", File: "proc/mvp6-0/du.go", Old: "\t\t\tu.pendingBranchResolution = true\n", New: ""},
 	},
 	"C04": {
@@ -137,6 +142,7 @@ var mutantCatalogue = map[string][]mutant{
 		{Name: "rename table back to completion order", File: "risc/app.go", Old: "ctx.transactionRAT.WriteSorted(exe.Register, transactionUnit{sequenceID, exe.RegisterValue}, func(a, b transactionUnit) bool {\n\t\treturn a.sequenceID < b.sequenceID\n\t})", New: "ctx.transactionRAT.Write(exe.Register, transactionUnit{sequenceID, exe.RegisterValue})"},
 		{Name: "commit over a younger value", File: "risc/app.go", Old: "exists && tu.sequenceID < sequenceID {\n\t\treturn\n\t}", New: "exists && tu.sequenceID > sequenceID {\n\t\treturn\n\t}"},
 		{Name: "forwarding ignores current-cycle writers", File: "proc/mvp7-0/cu.go", Old: "\tfor currentRunner := range u.pushedRunnersInCurrentCycle {\n\t\tif slices.Contains(currentRunner.Runner.WriteRegisters(), register) {\n\t\t\treturn false, nil, risc.Zero\n\t\t}\n\t}\n", New: ""},
+		{Name: "renaming variant reads the latest value", File: "proc/mvp6-3/eu.go", Old: "u.runner.Runner.Run(r.ctx, r.app.Labels, u.runner.Pc, u.memory, u.runner.SequenceID)", New: "u.runner.Runner.Run(r.ctx, r.app.Labels, u.runner.Pc, u.memory, 0)"},
 		{Name: "pending write deleted outright", File: "risc/app.go", Old: "\t\tctx.PendingWriteRegisters[register]--\n\t\tif ctx.PendingWriteRegisters[register] <= 0 {\n\t\t\tdelete(ctx.PendingWriteRegisters, register)\n\t\t}\n\t}\n}\n\n// IsWriteDataHazard", New: "\t\tdelete(ctx.PendingWriteRegisters, register)\n\t}\n}\n\n// IsWriteDataHazard"},
 	},
 	"C05": {
@@ -180,6 +186,7 @@ var mutantCatalogue = map[string][]mutant{
 		{Name: "transaction style without Commit", File: "proc/mvp6-2/cpu.go", Old: "\tm.ctx.Commit()\n", New: ""},
 		{Name: "rename flag without rename writes", File: "proc/mvp6-2/cpu.go", Old: "ctx := risc.NewContext(debug, memoryBytes, false)", New: "ctx := risc.NewContext(debug, memoryBytes, true)"},
 		{Name: "runner without memory", File: "risc/runner.go", Old: "exe, err := runner.Run(r.Ctx, r.App.Labels, pc, memory, 0)", New: "exe, err := runner.Run(r.Ctx, r.App.Labels, pc, nil, 0)"},
+		{Name: "reference runner ignores ret", File: "risc/runner.go", Old: "\t\tif exe.Return {\n\t\t\treturn nil\n\t\t}\n", New: ""},
 		{Name: "decode past ret", File: "proc/mvp6-1/du.go", Old: "\t\t\tu.ret = true\n\t\t\treturn\n", New: "\t\t\tu.ret = true\n"},
 		{Name: "memory write applied first", File: "proc/mvp1/cpu.go", Old: "\t\tif exe.RegisterChange {\n\t\t\tm.ctx.WriteRegister(exe)", New: "\t\tif exe.MemoryChange {\n\t\t\tm.ctx.WriteRegister(exe)"},
 	},
